@@ -44,7 +44,7 @@ REACH = ["shared_relay_pairs", "forged_create_live_exit_before_expiry", "forged_
          "created_relabelled_with_live_exit_id", "signed_message_replayed_from_adversary_address", "forged_created_badauth", "forged_created_shortkey",
          "plaintext_flagged_data_on_live_exit_id", "nested_data_message_from_outside", "data_cell_into_half_built_circuit", "custom_join_policy", "keyless_relay_early_flood", "keyless_traffic_flood",
          "forged_destroy_for_surviving_half_of_relay_pair", "first_data_cell_replayed_from_adversary_address",
-         "create_racing_with_create_for_same_id", "create_for_new_id_at_full_node", "nested_data_message_reentering_at_an_exit"]
+         "create_racing_with_create_for_same_id", "create_for_new_id_at_full_node", "idle_circuit_never_exited_data_before_attack", "nested_data_message_reentering_at_an_exit"]
 
 ATTACKS = ["unknown_id", "garbage_live", "cross_body", "create_live", "create_live", "destroy_own_sig", "destroy_replay",
            "destroy_spoofed_src", "created_cid_swap", "signed_replay_adv", "forged_created_badauth", "forged_created_shortkey",
@@ -62,6 +62,12 @@ def cases(tier: str, base_seed: int):  # noqa: ANN201
                    "attacks": [{"kind": kind, "pick": k / 7.0} for k in range(6)],
                    "join_policy": "accept_all" if kind == "create_live" and wait > 60 else None,
                    "max_traffic": 150000 if kind == "traffic_flood" else None}
+    for wait in (5.0, 70.0):
+        # the same forged creates against circuits that were only pinged so far (exit entry exists, outside socket never opened)
+        n += 1
+        yield {"seed": base_seed + n, "knobs": {}, "originators": 2, "pool": 3, "circuits": [1, 2, 1, 3], "wait": wait, "idle": [0, 1, 2, 3],
+               "attacks": [{"kind": "create_live", "pick": k / 11.0} for k in range(11)],
+               "join_policy": "accept_all" if wait > 60 else None, "max_traffic": None}
     for i in itertools.count():
         seed = base_seed + 1000 + i
         rng = random.Random(f"c05/{seed}")
@@ -73,7 +79,9 @@ def cases(tier: str, base_seed: int):  # noqa: ANN201
                "attacks": [{"kind": rng.choice(ATTACKS), "pick": rng.random()} for _ in range(rng.choice([2, 5, 12]))],
                "join_policy": rng.choice([None, None, "accept_all"]), "max_traffic": rng.choice([None, None, 150000]),
                # tuning knobs of the library, varied per run
-               "settings": rng.choice([{}, {}, {"remove_tunnel_delay": rng.choice([0, 1]), "unstable_timeout": rng.choice([5, 60])}])}
+               "settings": rng.choice([{}, {}, {"remove_tunnel_delay": rng.choice([0, 1]), "unstable_timeout": rng.choice([5, 60])}]),
+               # circuits that are only pinged until the attack burst (their exit entry has not opened its outside socket yet)
+               "idle": [j for j in range(ncirc) if rng.random() < 0.2]}
 
 
 def execute(case: dict) -> dict:  # noqa: C901, PLR0915
@@ -151,10 +159,16 @@ def execute(case: dict) -> dict:  # noqa: C901, PLR0915
                    delay=0.0001, label="forged_created")
     net.on_send.append(create_observer)
 
+    idle_circuits = set(case.get("idle") or ())
+
     async def send_round(k: int) -> None:
         for ci in circuits:
             circ, o = ci["circ"], ci["o"]
             if circ.state != "READY":
+                continue
+            if k < 100 and ci["idx"] in idle_circuits:
+                # a circuit that is kept alive by pings only until the attack: its exit entry never exited data (socket not opened)
+                world.probe("idle_circuit_never_exited_data_before_attack")
                 continue
             marker = b"C%02dM%04d" % (ci["idx"], k) + rng.randbytes(3).hex().encode()
             payload = b"d" + marker + rng.randbytes(rng.choice([4, 40, 300])) + b"e"
